@@ -316,6 +316,49 @@ impl AOracle for Oracle {
     }
 }
 
+/// Thresholds just above 2^16: nothing near t reports can be produced or interpolated, so the polynomial clause
+/// is tested from below. Twelve reports of one measurement carry twelve points of each sharing polynomial; for a
+/// polynomial of degree t-1 >= 11 they interpolate to degree exactly 11 (anything lower has probability 2^-128).
+/// A sharing whose real degree is 0, 1, ... 10 - e.g. (t-1) mod 2^16 - would let that many + 1 clients open
+/// the measurement.
+fn huge_threshold(ctx: &mut Ctx) -> Result<(), Violation> {
+    use sta_rs::{Message, MessageGenerator};
+    let t = *ctx.ch.pick(&[65_537u32, 65_538, 65_540, 65_546]);
+    let m = ctx.ch.bytes(11);
+    let epoch = b"e".to_vec();
+    ctx.stats.probe("runs_with_threshold_above_2_16");
+    ev!(ctx, "twelve reports at threshold {} (degree tested from below)", t);
+    let mg = MessageGenerator::new(crate::worlds::a::make_measurement(&m), t, &epoch);
+    let mut rnd = [0u8; 32];
+    mg.sample_local_randomness(&mut rnd);
+    let n = 12usize;
+    let mut pts: Vec<(BigUint, Vec<BigUint>)> = Vec::new();
+    for i in 0..n {
+        let msg = ctx.os.with_node(100 + i as u64, || Message::generate(&mg, &rnd, None)).map_err(|e| Violation::new("c02.generate", "generate", e.to_string()))?;
+        let pr = layout::parse_report(&msg.to_bytes()).ok_or_else(|| Violation::new("c02.layout", "layout", "report does not parse"))?;
+        if pr.share.x.is_zero() {
+            return Err(Violation::new("c02.wire_secret", "share_point_zero", "a report carries the share point 0"));
+        }
+        pts.push((pr.share.x, pr.share.ys));
+    }
+    let p = shamir_big::p();
+    let k = pts[0].1.len();
+    for j in 0..k {
+        let pj: Vec<(BigUint, BigUint)> = pts.iter().map(|(x, ys)| (x.clone(), ys[j].clone())).collect();
+        let xs: BTreeSet<&BigUint> = pj.iter().map(|q| &q.0).collect();
+        if xs.len() < n {
+            continue;
+        }
+        let co = shamir_big::interpolate(&pj, &p);
+        let d = shamir_big::degree(&co).unwrap_or(0);
+        if d < n - 1 {
+            return Err(Violation::new("c02.poly_degree", "degree_too_low", format!("{} reports at threshold {} carry points of a polynomial of degree {} (element {}): {} clients would open the measurement", n, t, d, j, d + 1)));
+        }
+    }
+    ctx.stats.nontrivial = false;
+    Ok(())
+}
+
 impl Property for C02 {
     fn id(&self) -> &'static str {
         "C02"
@@ -330,6 +373,9 @@ impl Property for C02 {
         if thorough { 80_000 } else { 900 }
     }
     fn run(&self, ctx: &mut Ctx) -> Result<(), Violation> {
+        if ctx.ch.chance(1, 100) {
+            return huge_threshold(ctx);
+        }
         let mut gen = GenCfg::standard(ctx.thorough);
         gen.min_threshold = 2;
         gen.thresholds.retain(|t| *t >= 2);
